@@ -148,6 +148,10 @@ type Pair struct {
 	ID   string
 	A, B *Root
 	J    *Journal
+	// PresetArchive renders the archive found on disk after the first cycle;
+	// PresetOK tells whether it equals the requested ancestor.
+	PresetArchive string
+	PresetOK      bool
 }
 
 // PairOptions configures NewPair.
@@ -159,6 +163,9 @@ type PairOptions struct {
 	Delay    func(op string) time.Duration
 	// Configuration, if non-nil, is used instead of {SynchronizationMode: Mode}.
 	Configuration *synchronization.Configuration
+	// TolerateArchiveMismatch keeps the pair (PresetOK=false) when the archive
+	// on disk after the completed first cycle is not the requested ancestor.
+	TolerateArchiveMismatch bool
 }
 
 func endedOn(evs []Event, root string, after uint64) bool {
@@ -212,12 +219,14 @@ func (h *Harness) NewPair(ctx context.Context, o PairOptions) (*Pair, error) {
 	}
 	a, err := LoadArchive(id)
 	if err != nil {
-		p.Close(context.Background())
-		return nil, fmt.Errorf("archive after first cycle: %w", err)
+		p.PresetArchive = "unreadable: " + err.Error()
+	} else {
+		p.PresetArchive = gen.Describe(a.Content)
+		p.PresetOK = p.PresetArchive == gen.Describe(o.Ancestor)
 	}
-	if gen.Describe(a.Content) != gen.Describe(o.Ancestor) {
+	if !p.PresetOK && !o.TolerateArchiveMismatch {
 		p.Close(context.Background())
-		return nil, fmt.Errorf("preset ancestor differs: have %s want %s", gen.Describe(a.Content), gen.Describe(o.Ancestor))
+		return nil, fmt.Errorf("preset ancestor differs: have %s want %s", p.PresetArchive, gen.Describe(o.Ancestor))
 	}
 	return p, nil
 }
